@@ -106,7 +106,9 @@ var c01Names = func() []string {
 var c01Steps = []string{".Name", ".priv", ".In", ".PIn", ".Nilp", ".Any", ".M", ".F", ".privf", ".Hello", ".PHello", ".Var", ".Val", ".Iface", ".Two", ".None", ".A", ".b", ".List", ".0", ".1", ".5",
 	".99999999999", ".a", ".k", ".version", ".Counter", ".String", ".V", ".Year", ".UTC", ".Super", ".Parentloop", ".Ch"}
 
-var c01Lits = []string{"0", "1", "2", "5", "1.5", `"a"`, `""`, `"1:2"`, `"-1:"`, `":"`, `"%d"`, `"%s"`, `"%99999d"`, `"a,b"`, `"a,b,c,d"`, `"b"`, "true", "false", `"é"`, `"\\"`}
+var c01Lits = []string{"0", "1", "2", "5", "1.5", `"a"`, `""`, `"1:2"`, `"-1:"`, `":"`, `"%d"`, `"%s"`, `"%99999d"`, `"a,b"`, `"a,b,c,d"`, `"b"`, "true", "false", `"é"`, `"\\"`,
+	// ready-made operand pairs of one kind (two random names rarely are): time comparisons, membership in structs and maps
+	"tm < tm", "tm >= tm", "tm == tm", "tm != tm", "tm > tm", "tm <= tm", `"Name" in s`, `"priv" in s`, "1 in im", `"k" in sm`, "nili in sm", "f in fm", "t in bm", "u8 in um", "s in sl", "nili in sl"}
 
 // ---- case: a program (generated or assembled), optionally mutated at token level ---------
 
